@@ -8,3 +8,7 @@ Lemma cert_type : check_all G_type C_type = true.
 Proof. vm_compute. reflexivity. Qed.
 Lemma cert_frame : check_all G_frame C_frame = true.
 Proof. vm_compute. reflexivity. Qed.
+Lemma cert_fun : check_all G_fun C_fun = true.
+Proof. vm_compute. reflexivity. Qed.
+Lemma cert_templ : check_all G_templ C_templ = true.
+Proof. vm_compute. reflexivity. Qed.
